@@ -124,6 +124,10 @@ def gen_cases_for(seed_, n):
                     extra += ["--disable-unicode-conversion"]
                 if rng.random() < 0.3:
                     extra += ["--strings-converters"]
+                if rng.random() < 0.1:
+                    # a command line that fails (in validation, in option conversion, or only when the generator is built): the object is used again afterwards
+                    extra += rng.choice([["--merge", "exact", "fuzzy_1"], ["--code-generator-kwargs", "nosuchkwarg=1"], ["--merge", "percent_abc"],
+                                         ["--code-generator", "x.Y"], ["--dkr", "k(\\d+"], ["--code-generator-kwargs", "meta"]])
                 if CLI_REGISTRY_OPTIONS and rng.random() < 0.35:
                     extra += rng.choice([["--datetime"], ["--disable-str-serializable-types", "int"], ["--disable-str-serializable-types", "float", "bool"],
                                          ["--datetime", "--disable-str-serializable-types", "IsoDateString"]])
@@ -596,6 +600,8 @@ def run_case(case):
         if ref is None or ref.get("reference_died"):
             return {"status": "inconclusive", "why": "reference process died", "witnesses": [], "counters": cnt}
         cnt["ops_compared"] += 1
+        if op["op"] == "cli" and "raised" in got and "raised" in ref:
+            cnt["cli_ops_failing_in_both"] = cnt.get("cli_ops_failing_in_both", 0) + 1
         hist = [o["op"] for o in ops[:i]]
         if "raised" in got and "raised" not in ref:
             wit.append({"property": PROP, "mechanism": f"raises-only-after-history:{op['op']}",
